@@ -288,12 +288,29 @@ def write_prices(path: str, seq, family: str):
             f.write(f"{t},{tg},{plug},{price}\n")
 
 
+def _prime_prices(d: str):
+    """ANOTHER simulation in this very process first: the same regions, other stations inside them (a parameter study, a batch
+    worker running several scenarios).  Whatever the library remembers per region across simulations then prices the wrong
+    stations in every enumerated table below."""
+    S = sites()
+    _, _, _, targets_geo = price_world()
+    others = [lambda env, rn: mk_station(env, rn, "q0", S["N2"], {"DCFC": 1}), lambda env, rn: mk_station(env, rn, "q1", S["X2"], {"DCFC": 1})]
+    cfg = make_config(step=60, start=0, end=6000)
+    req_file = os.path.join(d, "prime_req.csv")
+    write_requests(req_file, ())
+    pf = os.path.join(d, "prime_prices.csv")
+    write_prices(pf, tuple((0, g, "DCFC", 0.5) for g in targets_geo.values()), "geoid")
+    for lazy in (False, True):
+        run_updates(cfg, req_file, pf, lazy, others, 2)
+
+
 def _price_shard(shard) -> Dict[str, Any]:
     family, step, start, maxlen, part, nparts = shard
     d = scratch()
     out = {"cases": 0, "runs": 0, "nontrivial": 0, "findings": {}, "samples": []}
     mks, cells, plugs, _ = price_world()
     try:
+        _prime_prices(d)
         cfg = make_config(step=step, start=start, end=start + 100 * step)
         req_file = os.path.join(d, "req.csv")
         write_requests(req_file, ())
